@@ -101,8 +101,12 @@ def write_evidence(ctx, level, coverage, assumptions, violations):
         "coverage": coverage, "assumptions": assumptions, "wall_s": round(ctx.elapsed(), 2),
         "violations": violations,
     }
-    os.makedirs(os.path.join(VERIF, "evidence"), exist_ok=True)
-    path = os.path.join(VERIF, "evidence", ctx.prop + ".json")
+    evdir = os.path.join(VERIF, "evidence")
+    if os.path.realpath(REPO) != "/repo":
+        # a run against another checkout (seeded change in a scratch worktree) must not overwrite the evidence of /repo
+        evdir = os.path.join(os.environ.get("VERIF_SCRATCH_BASE", "/tmp"), "verif-evidence-other-checkout")
+    os.makedirs(evdir, exist_ok=True)
+    path = os.path.join(evdir, ctx.prop + ".json")
     tmp = path + ".tmp"
     with open(tmp, "w") as f:
         json.dump(ev, f, indent=1, sort_keys=True, default=str)
